@@ -28,6 +28,8 @@ REAL = {
     'symlink': os.symlink,
     'link': os.link,
     'truncate': os.truncate,
+    'listdir': os.listdir,
+    'scandir': os.scandir,
 }
 
 
@@ -52,11 +54,18 @@ class Disk:
         self.pause_match: tuple = ()
         self.on_pause: typing.Optional[typing.Callable[[], None]] = None
         self.on_point: typing.Optional[typing.Callable[[], None]] = None  # scheduling hook (crashbox.threads)
+        # transient I/O error: the n-th tracked directory listing of the operation raises OSError(EMFILE)
+        self.listings = 0
+        self.ioerr_at: typing.Optional[int] = None
 
     # -- per operation -----------------------------------------------------------------------
     def begin(self, crash: typing.Optional[dict], pause: typing.Optional[dict] = None) -> None:
         self.n = 0
         self.reads = 0
+        self.listings = 0
+        self.ioerr_at = crash.get('ioerr') if crash else None
+        if crash and 'at' not in crash:
+            crash = None
         mutation = bool(pause and pause.get('on') == 'mutation')
         self.pause_at = pause['at'] if pause and not mutation else None
         self.pause_mutation = pause['at'] if mutation else None  # park before the n-th tracked mutation instead
@@ -89,6 +98,13 @@ class Disk:
     def rel(self, path) -> str:
         path = os.path.realpath(os.fspath(path))
         return path[len(self.root):] if path.startswith(self.root) else path
+
+    def listing_point(self, path) -> None:
+        self.listings += 1
+        if self.ioerr_at == self.listings:
+            self.ioerr_at = None
+            self.log.append([self.n, 'io-error-in-listing', self.rel(path), None])
+            raise OSError(24, 'injected: too many open files', os.fspath(path))
 
     def read_point(self, path) -> None:
         """A tracked read is about to be opened (scheduling point between two processes / threads)."""
@@ -197,6 +213,18 @@ def install(disk: Disk) -> None:
         call.__name__ = name
         return call
 
+    def listdir(path='.'):
+        if disk.tracked(path):
+            disk.listing_point(path)
+        return REAL['listdir'](path)
+
+    def scandir(path='.'):
+        if disk.tracked(path):
+            disk.listing_point(path)
+        return REAL['scandir'](path)
+
+    os.listdir = listdir
+    os.scandir = scandir
     builtins.open = sim_open
     io.open = sim_open
     for name in ('mkdir', 'unlink', 'remove', 'rmdir', 'truncate'):
